@@ -1,0 +1,193 @@
+//! Read-only structural introspection used by the external verification
+//! harness. Compiled only with the `verif-hooks` cargo feature; never changes
+//! any state of the cache.
+
+use std::borrow::Borrow;
+use std::hash::{BuildHasher, Hash};
+use std::mem;
+
+use crate::entry::{Entry, EntryPtr};
+use crate::LruCache;
+
+/// One node of the intrusive list, as read from a validated bucket.
+#[derive(Clone, Debug, PartialEq, Eq)]
+pub struct VerifNode {
+    /// Address of the node.
+    pub addr: usize,
+    /// Index of the hash table bucket that stores the node.
+    pub bucket: usize,
+    /// The raw `prev` link (towards the most-recently-used end).
+    pub prev: usize,
+    /// The raw `next` link (towards the least-recently-used end).
+    pub next: usize,
+    /// The size recorded in the node.
+    pub size: usize
+}
+
+/// The result of walking the list in both directions.
+#[derive(Clone, Debug, PartialEq, Eq)]
+pub struct VerifWalk {
+    /// Address of the seal.
+    pub seal: usize,
+    /// `seal.prev`, i.e. the least-recently-used node or the seal.
+    pub seal_prev: usize,
+    /// `seal.next`, i.e. the most-recently-used node or the seal.
+    pub seal_next: usize,
+    /// Nodes reached by following `prev` from the seal (LRU to MRU).
+    pub by_prev: Vec<VerifNode>,
+    /// Nodes reached by following `next` from the seal (MRU to LRU).
+    pub by_next: Vec<VerifNode>,
+    /// Number of buckets of the table.
+    pub buckets: usize,
+    /// Start of the table allocation.
+    pub alloc_ptr: usize,
+    /// Size of the table allocation in bytes.
+    pub alloc_size: usize,
+    /// The first structural error met, if any. The walk stops there.
+    pub error: Option<String>
+}
+
+impl<K, V, S> LruCache<K, V, S> {
+
+    // Maps an address to the index of the full bucket it denotes, without
+    // dereferencing it.
+    fn verif_bucket_of(&self, addr: usize) -> Result<usize, String> {
+        let entry_size = mem::size_of::<Entry<K, V>>();
+        let buckets = self.table.buckets();
+        let data_end = self.table.data_end().as_ptr() as usize;
+
+        if addr == 0 {
+            return Err("null pointer".to_owned());
+        }
+
+        if addr >= data_end {
+            return Err(format!("pointer {:#x} above table data", addr));
+        }
+
+        let offset = data_end - addr;
+
+        if offset % entry_size != 0 {
+            return Err(format!("pointer {:#x} not on a bucket boundary",
+                addr));
+        }
+
+        let number = offset / entry_size;
+
+        if number > buckets || self.table.len() == 0 {
+            return Err(format!("pointer {:#x} outside of table", addr));
+        }
+
+        let index = number - 1;
+
+        if unsafe { !self.table.is_bucket_full(index) } {
+            return Err(format!("pointer {:#x} to vacant bucket {}", addr,
+                index));
+        }
+
+        Ok(index)
+    }
+
+    fn verif_read(&self, addr: usize) -> Result<VerifNode, String> {
+        let bucket = self.verif_bucket_of(addr)?;
+        let entry = unsafe { &*(addr as *const Entry<K, V>) };
+
+        Ok(VerifNode {
+            addr,
+            bucket,
+            prev: entry.prev.verif_addr(),
+            next: entry.next.verif_addr(),
+            size: entry.size
+        })
+    }
+
+    /// Follows the list from the seal in both directions for at most
+    /// `len() + 1` steps each, validating every pointer against the current
+    /// table allocation before it is dereferenced.
+    pub fn verif_walk(&self) -> VerifWalk {
+        let seal = self.seal.verif_addr();
+        let seal_prev = self.seal.get().prev.verif_addr();
+        let seal_next = self.seal.get().next.verif_addr();
+        let (alloc_ptr, layout) = self.table.allocation_info();
+        let mut walk = VerifWalk {
+            seal,
+            seal_prev,
+            seal_next,
+            by_prev: Vec::new(),
+            by_next: Vec::new(),
+            buckets: self.table.buckets(),
+            alloc_ptr: alloc_ptr.as_ptr() as usize,
+            alloc_size: layout.size(),
+            error: None
+        };
+        let limit = self.table.len() + 1;
+
+        for forward in [true, false] {
+            let mut current = if forward { seal_prev } else { seal_next };
+            let mut steps = 0;
+
+            while current != seal {
+                if steps == limit {
+                    walk.error = Some(format!(
+                        "{} walk does not return to the seal",
+                        if forward { "prev" } else { "next" }));
+                    return walk;
+                }
+
+                match self.verif_read(current) {
+                    Ok(node) => {
+                        current = if forward { node.prev } else { node.next };
+
+                        if forward {
+                            walk.by_prev.push(node);
+                        }
+                        else {
+                            walk.by_next.push(node);
+                        }
+                    },
+                    Err(error) => {
+                        walk.error = Some(format!("{} walk, step {}: {}",
+                            if forward { "prev" } else { "next" }, steps,
+                            error));
+                        return walk;
+                    }
+                }
+
+                steps += 1;
+            }
+        }
+
+        walk
+    }
+
+    /// Returns the key and value stored in the node at the given address, if
+    /// that address denotes a full bucket of the current table.
+    pub fn verif_node_entry(&self, addr: usize) -> Option<(&K, &V)> {
+        self.verif_bucket_of(addr).ok().map(|_| {
+            let entry = unsafe { &*(addr as *const Entry<K, V>) };
+            unsafe { (entry.key(), entry.value()) }
+        })
+    }
+}
+
+impl<K, V, S> LruCache<K, V, S>
+where
+    K: Eq + Hash,
+    S: BuildHasher
+{
+    /// Returns the address of the node that a table lookup of the given key
+    /// finds.
+    pub fn verif_find_addr<Q>(&self, key: &Q) -> Option<usize>
+    where
+        K: Borrow<Q>,
+        Q: Eq + Hash + ?Sized
+    {
+        self.get_from_table(key)
+            .map(|entry| entry as *const Entry<K, V> as usize)
+    }
+}
+
+impl<K, V> EntryPtr<K, V> {
+    pub(crate) fn verif_addr(&self) -> usize {
+        self.verif_raw() as usize
+    }
+}
